@@ -692,7 +692,7 @@ class Engine:
     INT_MAX_OF = {'unsigned char': 255, 'unsigned short': 65535, 'unsigned int': (1 << 32) - 1, 'int': (1 << 31) - 1,
                   'short': 32767, 'signed char': 127, 'char': 127}
 
-    def narrow_wraps(self, terms, facts, maximal=False):
+    def narrow_wraps(self, terms, facts, maximal=False, wide_diffs=False):
         """arithmetic subterms of `terms` that are carried out in a type narrower than 64 bits and are not proved to
         stay within that type under `facts` plus the value ranges of their narrow atoms -> [(term, type, why)].
         With `maximal`, only the outermost sum/difference of each unsigned chain is examined: unsigned arithmetic is
@@ -716,6 +716,10 @@ class Engine:
                 qt = self.optype[t].replace('const ', '').strip()
                 mx = self.INT_MAX_OF.get(qt)
                 if mx is None:
+                    # 64-bit unsigned arithmetic: no upper bound to speak of, but a difference still wraps below zero
+                    if wide_diffs and t[0] == '-' and qt in ('unsigned long', 'unsigned long long'):
+                        if not self.entails(list(facts), linearize(t[2]) - linearize(t[1])):
+                            out.append((t, qt, 'may go below 0'))
                     continue
                 rng = []
                 for a in linearize(t).atoms():
